@@ -143,6 +143,13 @@ func genAnno(r *Rand, ref string, allowUnnamed bool, sameStart float64) Anno {
 		}
 		a.Feats = append(a.Feats, f)
 	}
+	// two features may carry the same name (two products of one gene; GFF3 does not require Names to be unique)
+	if len(a.Feats) >= 2 && r.P(0.12) {
+		p := r.Perm(len(a.Feats))
+		if a.Feats[p[0]].Name != "" {
+			a.Feats[p[1]].Name = a.Feats[p[0]].Name
+		}
+	}
 	return a
 }
 
